@@ -54,12 +54,13 @@ def r1(ctx, sc):
         dels = [c for c in sc.calls(f, 'yy_delete_buffer') if any(S.is_current_value(sc, f, a, res) for a in c.ops)]
         key = sc.key('C11.R1', canon, 'save')
         probs = []
-        save_hold = [x for x in f.ins if x.op == 'store' and is_load_of_var(sc, f, res, x.ops[0], 'yy_hold_char')
-                     and res.loc(x.ops[1])[0] == 'deref' and sc.is_var(res.loc(x.ops[1])[1], 'yy_c_buf_p')]
-        save_pos = [x for x in f.ins if x.op == 'store' and sc.is_buf(res.loc(x.ops[1]), 'yy_buf_pos') and sc.via_current(res.loc(x.ops[1]))
-                    and is_load_of_var(sc, f, res, x.ops[0], 'yy_c_buf_p')]
-        save_n = [x for x in f.ins if x.op == 'store' and sc.is_buf(res.loc(x.ops[1]), 'yy_n_chars') and sc.via_current(res.loc(x.ops[1]))
-                  and is_load_of_var(sc, f, res, x.ops[0], 'yy_n_chars')]
+        def p_hold(g, x, r): return is_load_of_var(sc, g, r, x.ops[0], 'yy_hold_char') and r.loc(x.ops[1])[0] == 'deref' and sc.is_var(r.loc(x.ops[1])[1], 'yy_c_buf_p')
+        def p_pos(g, x, r): return sc.is_buf(r.loc(x.ops[1]), 'yy_buf_pos') and sc.via_current(r.loc(x.ops[1])) and is_load_of_var(sc, g, r, x.ops[0], 'yy_c_buf_p')
+        def p_n(g, x, r): return sc.is_buf(r.loc(x.ops[1]), 'yy_n_chars') and sc.via_current(r.loc(x.ops[1])) and is_load_of_var(sc, g, r, x.ops[0], 'yy_n_chars')
+        # (inline stores, or calls of a helper that performs them on every path)
+        save_hold = S.effect_sites(sc, f, p_hold, 'save-hold')
+        save_pos = S.effect_sites(sc, f, p_pos, 'save-pos')
+        save_n = S.effect_sites(sc, f, p_n, 'save-n')
         for x in changes:
             deleted = any(cfg.ins_dominates(d, x) for d in dels)
             if deleted: continue
